@@ -14,7 +14,7 @@ class Family:
     """Uniform driver around one model class + parameters."""
 
     def __init__(self, name, cls, kind, cap, params=None, rot=None, rot_params=None,
-                 complex_=False, time_ordered=False, min_modes=2):
+                 complex_=False, time_ordered=False, min_modes=2, multi_sample=False):
         self.name = name
         self.cls = cls
         self.kind = kind            # "single" | "cross" | "multi"
@@ -24,6 +24,7 @@ class Family:
         self.rot_params = dict(rot_params or {})
         self.complex = complex_
         self.time_ordered = time_ordered
+        self.multi_sample = multi_sample
 
     # -- capabilities (python mirror of the TLA+ table)
     CAPS = {
@@ -117,6 +118,9 @@ def _fam():
     add("ComplexMCA", C.ComplexMCA, "cross", "CapCross", dict(n_modes=3, n_pca_modes=4), rot=C.ComplexMCARotator,
         rot_params=dict(n_modes=3, power=1), complex_=True)
     add("multiCCA", M.CCA, "multi", "CapMulti", dict(n_modes=2, pca=False))
+    # the same classes on data with two sample dimensions (stacked sample MultiIndex)
+    add("EOF2s", S.EOF, "single", "CapSingle", dict(n_modes=3), rot=S.EOFRotator, rot_params=dict(n_modes=3, power=1), multi_sample=True)
+    add("MCA2s", C.MCA, "cross", "CapCross", dict(n_modes=3, n_pca_modes=4), rot=C.MCARotator, rot_params=dict(n_modes=3, power=1), multi_sample=True)
     return f
 
 
